@@ -17,7 +17,7 @@ import (
 // C03: the hook sees exactly the children the parent owns, in the documented shape (DESIGN §4 C03).
 // One sync per case; the expected view is computed independently from the cache content.
 
-var c03Roles = []string{"absent", "owned", "owned-nomatch", "orphan-match", "orphan-nomatch", "foreign-owned", "owned+extra-owner", "owned-deleting", "orphan-deleting"}
+var c03Roles = []string{"absent", "owned", "owned-nomatch", "orphan-match", "orphan-nomatch", "foreign-owned", "owned+extra-owner", "owned-deleting", "orphan-deleting", "orphan-adopted-elsewhere"}
 
 type c03Slot struct {
 	Role string
@@ -101,6 +101,7 @@ func c03Run(c c03Case) []mc.Finding {
 		matchK, matchV, noV = "controller-uid", "puid", "other"
 	}
 	// populate slots
+	var afterDeliver []func()
 	expected := map[string]bool{} // "hookKey|innerKey"
 	for i, s := range c.Slots {
 		if s.Role == "absent" {
@@ -131,6 +132,14 @@ func c03Run(c c03Case) []mc.Finding {
 			kit.Deleting(kit.Finalizers(kit.Labels(kit.Owners(o, ours), matchK, matchV), "ex.io/hold"))
 		case "orphan-deleting":
 			kit.Deleting(kit.Finalizers(kit.Labels(o, matchK, matchV), "ex.io/hold"))
+		case "orphan-adopted-elsewhere":
+			// a matching orphan as far as the cache knows; another parent has adopted it in the meantime, so the
+			// adoption is refused by the API server (one controller reference only)
+			kit.Labels(o, matchK, matchV)
+			kk, nsn, nm := k, ns, name
+			afterDeliver = append(afterDeliver, func() {
+				w.Sim.Edit(kk, nsn, nm, func(x map[string]interface{}) { kit.Owners(x, kit.OwnerRef(pk, "q", "quid", true)) })
+			})
 		}
 		w.Sim.Seed(o)
 		// independent expectation
@@ -158,6 +167,9 @@ func c03Run(c c03Case) []mc.Finding {
 	}
 	c03Outcome = fmt.Sprintf("expected-objects=%d", len(expected))
 	w.DeliverAll()
+	for _, fn := range afterDeliver {
+		fn()
+	}
 	// the hook returns one new child without a namespace (with one for cluster parents + namespaced kinds)
 	zk := declared[0]
 	answer := world.JSON(func(req map[string]interface{}) interface{} {
@@ -196,6 +208,11 @@ func c03Run(c c03Case) []mc.Finding {
 	}
 	if e := fp.Verify(); e != nil {
 		bad("cache-mutated", "%v", e)
+	}
+	if err != nil && len(afterDeliver) > 0 && len(w.Hooks.Calls) == 0 {
+		// the refused adoption ends the sync before the hook is asked anything: nothing was shown to it
+		c03Outcome = "adoption-refused-no-hook-call"
+		return f
 	}
 	if err != nil {
 		bad("sync-error", "sync failed: %v", err)
